@@ -512,7 +512,7 @@ class Gen:
             "path": lambda: self.ch(["/images/a.png", "/code/a.py", "/nope.png", "rel.png", "/images/bad.bin", "/code/latin1.txt", "/images", "/"]),
             "uri": lambda: self.ch(URIS),
             "string": lambda: self.ch([self.word(), self.text(), "python", "language, interface", "python, driver", "m1", "shell", "drivers"]),
-            "length": lambda: self.ch(["10", "10px", "50%", "1.5em", "3 cm"]),
+            "length": lambda: self.ch(["10", "10px", "50%", "1.5em", "3 cm", "px", "%", ".", ".em", "1.", ".5px", "1e3px", "-1px", "0"]),
             "boolean": lambda: self.ch(["true", "false", "True", ""]),
             "flag": lambda: "",
             "linenos": lambda: self.ch(["1", "1-2", "1,3", "2-1", "99", "1-"]),
@@ -616,6 +616,9 @@ class Gen:
                 if self.p(0.2):
                     content += self.blocks(depth + 1, 1, 1)
         elif base == "list-table":
+            if self.p(0.25):
+                # something that is not the list of rows comes first (a childless element: label, empty comment, transition, target)
+                content += self.ch([[".. _anchor:", ""], ["..", ""], ["-----", ""], [".. _t: https://x.y", ""], [".. |s| replace:: x", ""], ["text first", ""]])
             rows = self.r.randint(0, 3)
             for i in range(rows):
                 cols = self.r.randint(0, 3)
